@@ -112,7 +112,7 @@ func (e *Engine) chanSend(st *State, ch PtrV, v Value, where string) {
 		cc := al.cc
 		e.fail(st, c.And(al.g, cc.Closed), "nopanic:send-on-closed-channel", where)
 		room := c.Ult(cc.Count, c.BV(uint64(cc.Cap), 32))
-		e.fail(st, c.And(al.g, c.Not(room)), "noblock:send-would-block-forever", where)
+		e.blockUntil(st, c.Or(c.Not(al.g), room), "send-would-block-forever", where)
 		st.Heap[al.o] = e.chanPush(cc, c.And(al.g, room), v)
 	}
 }
@@ -142,7 +142,7 @@ func (e *Engine) chanRecv(st *State, ch PtrV, commaOk bool, typ types.Type, wher
 		}
 		cc := al.cc
 		has := c.Ne(cc.Count, c.BV(0, 32))
-		e.fail(st, c.And(al.g, c.Not(has), c.Not(cc.Closed)), "noblock:receive-would-block-forever", where)
+		e.blockUntil(st, c.Or(c.Not(al.g), has, cc.Closed), "receive-would-block-forever", where)
 		nc, v := e.chanPop(cc, c.And(al.g, has), et)
 		st.Heap[al.o] = nc
 		res = e.Merge(c.And(al.g, has), v, res)
